@@ -2,6 +2,7 @@
 C05 — Left/right pairs merge into one stereo file; no sample is lost or duplicated.
 -/
 import Smpl.Model.Names
+import Smpl.Lemmas.Stereo
 
 namespace Smpl.Props.C05
 open Smpl Smpl.Names
@@ -58,6 +59,33 @@ theorem C05_stereo_shape (s stem sep : Name) (side : Char) (h : stereoMatch s = 
           refine hs.trans ?_
           simp [List.append_assoc]
     · simp [hside] at h
+
+/-- **No sample is lost or duplicated.** For distinct sibling names that end in their last
+non-blank character (export names are stripped), the groups written by the pairing routine contain
+every sample exactly once: the indices of all groups, in order, are a permutation of `0 … n-1`. -/
+theorem C05_partition (names : List Name) (hnd : names.Nodup) (hnt : ∀ n ∈ names, NoTail n) :
+    (covered (combine names)).Perm (List.range names.length) := by
+  unfold combine
+  have h := go_partition names
+    (fun n => (List.range names.length).reverse.find? fun i => names[i]? == some n)
+    (by
+      intro a j hj
+      have := List.find?_some hj
+      simpa using this)
+    (by
+      intro a ha hnone
+      rw [List.find?_eq_none] at hnone
+      obtain ⟨i, hi, hi2⟩ := List.mem_iff_getElem.mp ha
+      have := hnone i (by simp; exact hi)
+      simp [List.getElem?_eq_getElem hi, hi2] at this)
+    hnd hnt names 0 [] names [] (by simp)
+    ⟨by simp [covered], by simp [covered], by intro k hk; omega, by intro m hm; cases hm⟩
+  rw [List.perm_ext_iff_of_nodup h.1 List.nodup_range]
+  intro k
+  rw [h.2 k]; simp
+
+/-- premises satisfiable and the statement non-trivial: three names, one pair. -/
+example : covered (combine ["A L".toList, "B".toList, "A R".toList]) = [0, 2, 1] := by decide
 
 -- sanity (kernel-evaluated): recognition and non-recognition
 example : stereoMatch "PAD - L".toList = some ("PAD".toList, " - ".toList, 'L') := by decide
